@@ -5,7 +5,8 @@ From Osmo Require Import Gen.C09_consts C09.Model C09.ProofsCoins.
 Open Scope Z_scope.
 
 Definition gauge_ok (g : gauge) : Prop :=
-  pos_coins (g_coins g) /\ pos_coins (g_dist g) /\ forall d, amount_of (g_dist g) d <= amount_of (g_coins g) d.
+  pos_coins (g_coins g) /\ pos_coins (g_dist g) /\ (forall d, amount_of (g_dist g) d <= amount_of (g_coins g) d) /\
+  sorted_coins (g_coins g) /\ sorted_coins (g_dist g).
 
 Definition locks_pos (ls : list lock) : Prop := Forall (fun l => 0 < l_amt l) ls.
 
@@ -140,7 +141,7 @@ Lemma distribute_internal_ok : forall cfg thr g ls di cache w di' cache',
       g_start g' = g_start g /\ g_denom g' = g_denom g /\ g_dur g' = g_dur g /\ g_filled g' = g_filled g + 1
   end.
 Proof.
-  intros cfg thr g ls di cache w di' cache' (Pc & Pd & Le) Hl H. unfold distribute_internal in H.
+  intros cfg thr g ls di cache w di' cache' (Pc & Pd & Le & Sc & Sd) Hl H. unfold distribute_internal in H.
   destruct (coins_sub (g_coins g) (g_dist g)) as [remain|] eqn:Sb; [|discriminate].
   pose proof (coins_sub_spec _ _ _ Sb) as Rs. pose proof (coins_sub_pos _ _ _ Sb Pc) as Rp.
   destruct (remain_epochs g =? 0) eqn:Re; [discriminate|]. apply Z.eqb_neq in Re.
@@ -166,4 +167,5 @@ Proof.
     rewrite sum_locks_eq in Bt.
     pose proof (rows_le (sum_amt ls) (to_int64 (remain_epochs g)) ls remain d eq_refl Sp Ne Hl (pos_nonneg _ Rp)).
     rewrite Rs in H. lia.
+  - apply coins_add_sorted; auto.
 Qed.
